@@ -112,7 +112,7 @@ Lemma pipe_facts : forall s b, s_stop s = false -> s_err s = [] ->
      /\ s_commits s' = S (s_commits s))
    \/ (s_err s' <> [] /\ s_stop s' = true /\ s_db s' = s_db s /\ s_commits s' = s_commits s)).
 Proof.
-  intros s b Hstop Herr. unfold run_pipe. rewrite Hstop. cbv zeta.
+  intros s b Hstop Herr. unfold run_pipe. rewrite Hstop, Herr. cbn [is_nil negb]. cbv zeta.
   destruct (issue dfault DBegin s) as [f0 s0] eqn:Ei. unfold issue in Ei. inversion Ei; subst f0 s0. clear Ei.
   cbn [s_err s_nops s_out s_live s_stop s_nhooks s_sid s_work s_db s_commits s_open].
   destruct (dfault (s_nops s)) eqn:Ef.
